@@ -467,6 +467,88 @@ func (c *ctx) session(ns string, elements []string, progs []c08.Prog, class stri
 	}
 }
 
+// faulty runs several elements in one session whose connection refuses the write number
+// failAfter (counted from the start of Serve; every later one too unless once).  The encoder is
+// buffered, so a fault shows when a reply is flushed.  Property: a request whose reply did not
+// reach the peer is only acceptable when the stream is terminated - nothing after it is served
+// and Serve does not return nil.
+func (c *ctx) faulty(ns string, failAfter int, once bool, elements []string, progs []c08.Prog, class string) {
+	r := c.r
+	local, remote := c08.LocalJID, c08.RemoteJID
+	if ns == c08.NSServer {
+		local, remote = c08.LocalSrv, c08.RemoteSrv
+	}
+	body := []byte(strings.Join(elements, "") + "</stream:stream>")
+	toks := c08.Tokens(ns, body)
+	res := c08.ServeOpt(c08.Opts{FailAfter: failAfter, FailOnce: once}, ns, local, remote, body, progs, nil, nil)
+	line := strings.Join([]string{"servew", fmt.Sprint(failAfter), c08.NsField(ns), common.HexS(res.LocalBare), c08.JidMap(toks), common.EncToks(toks), c08.EncProgs(progs)}, " ")
+	lines := []string{r.Prop + " " + line, "#fault " + common.HexS(strings.Join(elements, "\x00")) + " " + common.B(once)}
+	if res.Stall || res.Panic != "" {
+		r.Line(line, "PANIC-OR-STALL")
+		r.Fail("no-panic", "fault-panic", lines, res.Panic)
+		return
+	}
+	els, _, _ := c08.Written(ns, res.Out)
+	wobs, _ := c08.WrittenObs(els)
+	cls := c08.ErrClass(res.Err)
+	r.Line(line, fmt.Sprintf("%d %s %s", len(res.Invs), wobs, cls))
+	r.Case(line, true, fmt.Sprintf("%s/fault-%d/%d/%s", class, failAfter, len(elements), cls))
+	var outEls []c08.Elem
+	for _, e := range els {
+		if !e.StreamError {
+			outEls = append(outEls, e)
+		}
+	}
+	// walk the served elements: what each step owed the peer (the handler's elements, plus
+	// the automatic error for an unanswered request); the first step whose output is not
+	// (completely) on the wire lost it
+	depth, k, cum := 0, 0, 0
+	for _, t := range toks {
+		switch tt := t.(type) {
+		case xml.StartElement:
+			if depth == 0 && k < len(res.Invs) {
+				p := c08.Prog{Ret: "ok"}
+				if k < len(progs) {
+					p = progs[k]
+				}
+				var w []xml.Token
+				for _, o := range p.Ops {
+					w = append(w, o.Write...)
+				}
+				hEls := splitTop(w)
+				id, typ := c08AttrVal(tt.Attr, "id"), c08AttrVal(tt.Attr, "type")
+				request := tt.Name.Local == "iq" && (tt.Name.Space == c08.NSClient || tt.Name.Space == c08.NSServer) && (typ == "get" || typ == "set") && id != ""
+				answered := false
+				for _, e := range hEls {
+					answered = answered || isReply(e, id, ns)
+				}
+				owes := len(hEls)
+				if request && !answered && p.Ret == "ok" {
+					owes++
+				}
+				cum += owes
+				if cum > len(outEls) {
+					if request && p.Ret == "ok" {
+						if len(res.Invs) != k+1 {
+							r.Fail("answered-or-terminated", "served-on-after-lost-reply", lines, fmt.Sprintf("the reply to request %d (id %q) did not reach the peer (%d elements on the wire, %d owed) but %d more elements were handled", k, id, len(outEls), cum, len(res.Invs)-k-1))
+						}
+						if cls == "clean" {
+							r.Fail("answered-or-terminated", "nil-after-lost-reply", lines, fmt.Sprintf("the reply to request %d (id %q) did not reach the peer and Serve returned nil", k, id))
+						}
+					}
+					return
+				}
+				k++
+			} else if depth == 0 {
+				k++
+			}
+			depth++
+		case xml.EndElement:
+			depth--
+		}
+	}
+}
+
 // pend is a local request that is waiting for its response while the peer's input is served.
 type pend struct {
 	id   string
@@ -804,6 +886,28 @@ func Run(r *common.Run) error {
 				c.pending(ns, ps, strings.Split(string(sb), "\x00"), progs, "replay")
 				continue
 			}
+			if len(f) == 3 && f[0] == "#fault" && i > 0 {
+				sb, err := common.UnHex(f[1])
+				if err != nil {
+					return err
+				}
+				g := strings.Fields(lines[i-1])
+				if len(g) < 8 {
+					continue
+				}
+				ns := c08.NSClient
+				if g[3] == "s" {
+					ns = c08.NSServer
+				}
+				fa := 0
+				fmt.Sscanf(g[2], "%d", &fa)
+				ps, err := c08.DecProgs(g[7])
+				if err != nil {
+					return err
+				}
+				c.faulty(ns, fa, f[2] == "1", strings.Split(string(sb), "\x00"), ps, "replay")
+				continue
+			}
 			if len(f) == 2 && f[0] == "#session" && i > 0 {
 				sb, err := common.UnHex(f[1])
 				if err != nil {
@@ -965,6 +1069,89 @@ func Run(r *common.Run) error {
 	}
 	r.Exhaustive = append(r.Exhaustive, fmt.Sprintf("incoming element (7 names incl. both stanza namespaces x 6 types x 3 from values x %d payload shapes) x every single handler write out of %d x 3 modes; every ordered pair of writes for get/set requests", len(payloads), len(writeNames)))
 
+	// handlers that edit the start element they were handed in place (it is a pointer to the
+	// serve loop's own variable): type, name, id, all attributes; then write nothing, a
+	// non-reply, or a reply.  What the session owes the peer is decided by what the peer sent.
+	for _, ns := range []string{c08.NSClient, c08.NSServer} {
+		for _, typ := range []string{"get", "set", "result", "-"} {
+			for _, l := range locals[:4] {
+				if l.ns != "" && typ != "get" {
+					continue
+				}
+				for _, from := range []string{"a@example.org/r", "-"} {
+					e := element(l.local, l.ns, "mu", typ, from, "-", "", payloads[0])
+					for mut := 1; mut <= c08.MutMax; mut++ {
+						for wi, ws := range [][]string{nil, {"otherid"}, {"result"}, {"message"}} {
+							for _, m := range []string{"d", "r"} {
+								if m == "r" && (wi%2 == 1 || from == "-") {
+									continue
+								}
+								p := progOf(ws, "mu", wi, "ok")
+								p.Mut = mut
+								c.check(ns, m, e, p, "exhaustive-edit")
+							}
+						}
+					}
+				}
+			}
+		}
+	}
+
+	// the connection refuses a write: sessions of 1..4 elements, the fault at every write
+	// (each flush of a reply / of what a handler wrote, the closing tag), one refused write or
+	// all from then on
+	{
+		reqA := element("iq", "", "wa", "get", "a@example.org/r", "-", "", payloads[0])
+		reqB := element("iq", "", "wb", "set", "-", "-", "", payloads[3])
+		msg := `<message id="wm"><body>x</body></message>`
+		prs := `<presence id="wp"/>`
+		resI := element("iq", "", "wr", "result", "-", "-", "", "")
+		seqs := [][]string{{reqA}, {reqA, msg, prs}, {msg, reqA, msg}, {reqA, reqB, msg}, {msg, prs}, {resI, reqB, prs, reqA}}
+		nop := c08.Prog{Ret: "ok"}
+		for _, ns := range []string{c08.NSClient, c08.NSServer} {
+			for si, seq := range seqs {
+				for variant := 0; variant < 5; variant++ {
+					progs := make([]c08.Prog, len(seq))
+					for k := range progs {
+						progs[k] = nop
+						id := []string{"wa", "wb", "wm", "wp", "wr"}[0]
+						switch {
+						case strings.Contains(seq[k], `id="wa"`):
+							id = "wa"
+						case strings.Contains(seq[k], `id="wb"`):
+							id = "wb"
+						}
+						switch variant {
+						case 1: // every handler answers / writes a message
+							if strings.Contains(seq[k], "<iq") {
+								progs[k] = progOf([]string{"result"}, id, 1, "ok")
+							} else {
+								progs[k] = progOf([]string{"message"}, id, 0, "ok")
+							}
+						case 2: // messages are echoed, requests left to the session
+							if !strings.Contains(seq[k], "<iq") {
+								progs[k] = progOf([]string{"message"}, id, 1, "ok")
+							}
+						case 3: // a non-reply is written for requests
+							if strings.Contains(seq[k], "<iq") {
+								progs[k] = progOf([]string{"otherid"}, id, 0, "ok")
+							}
+						case 4: // the last handler fails after writing
+							if k == len(seq)-1 {
+								progs[k] = progOf([]string{"message"}, id, 0, []string{"fail", "streamerr", "wrapeof"}[si%3])
+							}
+						}
+					}
+					for fa := 0; fa <= len(seq)+1; fa++ {
+						for _, once := range []bool{false, true} {
+							c.faulty(ns, fa, once, seq, progs, "exhaustive-fault")
+						}
+					}
+				}
+			}
+		}
+	}
+
 	// several elements in one session: requests with distinct (and sometimes equal) ids,
 	// replies, other stanzas; handlers that answer their own request, an earlier or a later one
 	rndS := r.Rnd.Fork()
@@ -1013,9 +1200,16 @@ func Run(r *common.Run) error {
 			if rndS.Chance(1, 12) {
 				p.Ret = []string{"fail", "eof", "stanzaerr", "streamerr", "wrapeof", "wrapueof", "wrapstanza", "wrapstream", "joineof"}[rndS.Intn(9)]
 			}
+			if rndS.Chance(1, 6) {
+				p.Mut = 1 + rndS.Intn(c08.MutMax)
+			}
 			progs = append(progs, p)
 		}
-		c.session(ns, elements, progs, "session")
+		if rndS.Chance(1, 6) {
+			c.faulty(ns, rndS.Intn(cnt+2), rndS.Chance(1, 2), elements, progs, "session")
+		} else {
+			c.session(ns, elements, progs, "session")
+		}
 	}
 
 	// pending local requests: 0..2 SendIQ calls outstanding x incoming IQs of every type with
